@@ -66,7 +66,8 @@ def scenario(bits, rows, tshape, v, strided, ext_ok, ext, with_ops):
 
 
 def _scenario_steps(evs, used, t, bits, ext_ok, ext, with_ops):
-    p = PackedTensor.pack(t, bits)
+    # (4 bits is the documented default of PackedTensor.pack)
+    p = PackedTensor.pack(t) if bits == 4 and t.shape[0] % 3 == 0 else PackedTensor.pack(t, bits)
     evs.append({"act": "Pack", "prow": int(p._data.shape[0]), "payload": flat(p._data),
                 "pshape": list(p._data.shape), "public_shape": list(p.shape)})
     for name, out in routes(p._data, bits, ext_ok, ext):
